@@ -5,3 +5,8 @@ package config
 func VerifConfig(include, exclude []string, structInitV2 bool) *Config {
 	return &Config{includePkgs: include, excludePkgs: exclude, ExperimentalStructInitV2Enable: structInitV2, GroupErrorMessages: true}
 }
+
+// VerifConfigGrouping is VerifConfig with the grouping flag given.
+func VerifConfigGrouping(include, exclude []string, group bool) *Config {
+	return &Config{includePkgs: include, excludePkgs: exclude, GroupErrorMessages: group}
+}
